@@ -581,8 +581,10 @@ class Context:
         :return: None.
         """
         # processes will be dealt in FAILED processing
-        status.state = SupvisorsInstanceStates.FAILED
-        self.export_status(status)
+        # NOTE: the notification may be late (second failed call of a proxy received after the invalidation)
+        if status.has_active_state():
+            status.state = SupvisorsInstanceStates.FAILED
+            self.export_status(status)
 
     def on_process_removed_event(self, status: SupvisorsInstanceStatus, event: Payload) -> None:
         """ Method called upon reception of a process removed event from the remote Supvisors instance.
